@@ -463,6 +463,11 @@ def r6(repo, res):
         ("half-missing genotype", [vcf_record(102, "G", ["T"], (None, 1))], None, {}, {}),
         ("triploid genotype", [vcf_record(102, "G", ["T"], (0, 1, 1))], None, {}, {}),
         ("unrelated complex record", [vcf_record(102, "GT", ["AAA"], (0, 1))], None, {}, {}),
+        ("substitution written with a shared leading base (multi-allelic padding)", [vcf_record(102, "GT", ["G", "GA"], (0, 2))], None,
+         {(103, "T>A"): 10}, {103: 10}),
+        ("deletion-insertion (other shape)", [vcf_record(102, "GTT", ["GA"], (0, 1))], None, {}, {}),
+        ("insertion-deletion (other shape)", [vcf_record(102, "GT", ["GAAA"], (0, 1))], None, {}, {}),
+        ("het insertion (left-anchored record)", [vcf_record(102, "G", ["GTT"], (0, 1))], None, {(103, "insTT"): 10}, {103: 10}),
         ("multi-nucleotide substitution, adjacent records", [vcf_record(108, "A", ["G"], (0, 1)), vcf_record(109, "C", ["T"], (0, 1))],
          {108: "AC>GT"}, {(108, "AC>GT"): 10}, {108: 10}),
         ("multi-nucleotide substitution, one record", [vcf_record(108, "AC", ["GT"], (0, 1))], {108: "AC>GT"}, {(108, "AC>GT"): 10}, {108: 10}),
@@ -503,23 +508,38 @@ def r6(repo, res):
     okm = rows == {0: {}, 1: {(102, "G>T"): 20}, 2: {(102, "G>T"): 10}, 3: "raise AldyException"}
     res.ob("C16.R6", f, f, okm, expected="sample index 0/1/2 of a three-sample file reads that sample's genotype (0/0, 1/1, 0/1); index 3 is rejected with an error",
            found=str(rows), clause="turns the genotype of the selected sample ... into evidence", key="evidence:sample-index")
-    # the consumer must not let an all-zero indel table entry shadow the evidence of a VCF deletion
+    # the consumer: an all-zero indel table entry must not shadow the evidence of a VCF deletion; a filled entry takes precedence;
+    # a variant nobody observed has no support
     init = repo.func("coverage::Coverage.__init__")
     res.analysed(init)
-    try:
-        me = Obj()
-        Evaluator({"self": me, "gene": "G", "profile": "P", "sam": "S", "coverage": {104: {"delTG": [1] * 10, "_": [1] * 10}},
-                   "indel_coverage": {(104, "delTG"): [0, 0], (90, "insA"): [0, 0]}, "cnv_coverage": {}}).run(
-            [s_ for s_ in init.body if not (isinstance(s_, ast.Expr) and isinstance(s_.value, ast.Constant))])
-        cov = repo.func("coverage::Coverage.coverage")
-        k, v = Evaluator({"self": me, "mut": Obj(pos=104, op="delTG")}).run(
-            [s_ for s_ in cov.body if not (isinstance(s_, ast.Expr) and isinstance(s_.value, ast.Constant))])
-    except (Unfoldable, Raised) as e:
-        res.err("C16.R6", f"Coverage.__init__/coverage outside folding language: {e}")
-        return
-    res.ob("C16.R6", init, init, k == "return" and v == 10,
-           expected="a deletion supported by VCF pseudo-reads keeps its support although the (unfilled) indel table lists it with zero counts",
-           found=f"support read back: {v}", clause="indel support table takes precedence over parsed insertions only", key="zero-indel-entry")
+    cov = repo.func("coverage::Coverage.coverage")
+    res.analysed(cov)
+    nodoc = lambda fn: [s_ for s_ in fn.body if not (isinstance(s_.value if isinstance(s_, ast.Expr) else None, ast.Constant))]  # noqa
+    tables = [
+        ("only unfilled entries", {(104, "delTG"): [0, 0], (90, "insA"): [0, 0]}, {(104, "delTG"): 10, (90, "insA"): 0, (105, "G>A"): 0, (104, "_"): 10}),
+        ("a filled entry elsewhere", {(104, "delTG"): [0, 0], (90, "insA"): [3, 4]}, {(104, "delTG"): 10, (90, "insA"): 4, (105, "G>A"): 0, (104, "_"): 10}),
+        ("no table", {}, {(104, "delTG"): 10, (90, "insA"): 0, (105, "G>A"): 0}),
+    ]
+    for label, table, want in tables:
+        got = {}
+        try:
+            me = Obj()
+            Evaluator({"self": me, "gene": "G", "profile": "P", "sam": "S", "coverage": {104: {"delTG": [1] * 10, "_": [1] * 10}},
+                       "indel_coverage": dict(table), "cnv_coverage": {}}).run(nodoc(init))
+            for (pos, op) in want:
+                try:
+                    k, v = Evaluator({"self": me, "mut": Obj(pos=pos, op=op)}).run(nodoc(cov))
+                    got[pos, op] = v if k == "return" else f"{k}"
+                except Raised as e:
+                    got[pos, op] = f"raises {e.kind}"
+        except (Unfoldable, Raised) as e:
+            res.err("C16.R6", f"Coverage.__init__/coverage outside folding language: {e}")
+            return
+        res.ob("C16.R6", init, init, got == want,
+               expected=f"indel table with {label}: support read back {want} (a deletion supported by VCF pseudo-reads keeps its support although the "
+                        f"unfilled table lists it with zero counts; a filled entry takes precedence; an unobserved variant has none)",
+               found=f"support read back: {got}", clause="indel support table takes precedence over parsed insertions only",
+               key="zero-indel-entry" if label == "only unfilled entries" else f"indel-table:{label}")
 
 
 def spec_evidence(rec):
